@@ -90,6 +90,7 @@ func nondetSites() (string, error) {
 				if fd.Recv != nil && len(fd.Recv.List) == 1 {
 					fn = typeName(fd.Recv.List[0].Type) + "." + fn
 				}
+				literals := mapLiterals(f, fd)
 				following := map[*ast.RangeStmt]ast.Stmt{}
 				if fd.Body != nil {
 					for i, st := range fd.Body.List {
@@ -114,7 +115,15 @@ func nondetSites() (string, error) {
 							return true
 						}
 						if _, isMap := tv.Type.Underlying().(*types.Map); isMap {
-							sites = append(sites, fmt.Sprintf("%s|%s|%s|%s", fname, fn, exprText(x.X), bodyClass(x, following[x])))
+							class := bodyClass(x, following[x])
+							if class == "other" {
+								// a loop that stops at the first key that matches: what it answers is a function of
+								// the map only when at most one key can match; the keys are part of the site
+								if keys, ok := literals[exprText(x.X)]; ok {
+									class = "first-match:" + strings.Join(keys, ",")
+								}
+							}
+							sites = append(sites, fmt.Sprintf("%s|%s|%s|%s", fname, fn, exprText(x.X), class))
 						}
 					case *ast.BasicLit:
 						if x.Kind == token.STRING && strings.Contains(x.Value, "%p") {
@@ -235,4 +244,65 @@ func exprText(e ast.Expr) string {
 		return exprText(x.X)
 	}
 	return fmt.Sprintf("%T", e)
+}
+
+
+// mapLiterals: name -> sorted key expressions, for every variable of the file (package level) or of the
+// function that is initialised with a map composite literal
+func mapLiterals(f *ast.File, fd *ast.FuncDecl) map[string][]string {
+	out := map[string][]string{}
+	add := func(name string, e ast.Expr) {
+		cl, ok := e.(*ast.CompositeLit)
+		if !ok {
+			return
+		}
+		if _, ok := cl.Type.(*ast.MapType); !ok {
+			return
+		}
+		var keys []string
+		for _, el := range cl.Elts {
+			if kv, ok := el.(*ast.KeyValueExpr); ok {
+				keys = append(keys, exprText(kv.Key))
+			}
+		}
+		sort.Strings(keys)
+		out[name] = keys
+	}
+	for _, d := range f.Decls {
+		if gd, ok := d.(*ast.GenDecl); ok && gd.Tok == token.VAR {
+			for _, sp := range gd.Specs {
+				if vs, ok := sp.(*ast.ValueSpec); ok {
+					for i, n := range vs.Names {
+						if i < len(vs.Values) {
+							add(n.Name, vs.Values[i])
+						}
+					}
+				}
+			}
+		}
+	}
+	ast.Inspect(fd.Body, func(n ast.Node) bool {
+		switch x := n.(type) {
+		case *ast.AssignStmt:
+			for i, l := range x.Lhs {
+				if id, ok := l.(*ast.Ident); ok && i < len(x.Rhs) {
+					add(id.Name, x.Rhs[i])
+				}
+			}
+		case *ast.DeclStmt:
+			if gd, ok := x.Decl.(*ast.GenDecl); ok {
+				for _, sp := range gd.Specs {
+					if vs, ok := sp.(*ast.ValueSpec); ok {
+						for i, n := range vs.Names {
+							if i < len(vs.Values) {
+								add(n.Name, vs.Values[i])
+							}
+						}
+					}
+				}
+			}
+		}
+		return true
+	})
+	return out
 }
